@@ -50,6 +50,10 @@ func lexCampaign(c *Ctx, prop string) error {
 	for k, d := range []int{12, 33, 70, 120}[:c.Pick(2, 4)] {
 		jobs = append(jobs, &GenJob{Name: fmt.Sprintf("n%04d", k), G: gram.NestedLexGrammar(c.Rng, d+c.Rng.Intn(5))})
 	}
+	// constructs of more than 256 parts (alternatives, characters in a sequence)
+	for k, n := range []int{300, 257, 520}[:c.Pick(1, 3)] {
+		jobs = append(jobs, &GenJob{Name: fmt.Sprintf("u%04d", k), G: gram.HugeLexGrammar(c.Rng, n)})
+	}
 	jobs = append(jobs, corpusLexJobs(c, len(jobs))...)
 	inputsRng := rand.New(rand.NewSource(c.Seed*7919 + 17))
 	return runLexJobs(c, prop, jobs, func(j *GenJob) [][]byte { return gram.GenLexInputs(inputsRng, j.G, nInputs) })
